@@ -96,22 +96,22 @@ def rowwise_kron(a, b):
     return (a[:, :, None] * b[:, None, :]).reshape(a.shape[0], -1)
 
 
-def expected_block(t, X):
+def expected_block(t, X, Xtr):
     """the documented content of a term's columns, from numpy and b_spline_basis only"""
     from pygam.terms import SplineTerm, LinearTerm, FactorTerm
     from pygam.utils import b_spline_basis
     if t.isintercept:
         return np.ones((len(X), 1))
     if t.istensor:
-        out = expected_block(t._terms[0], X)
+        out = expected_block(t._terms[0], X, Xtr)
         for m in t._terms[1:]:
-            out = rowwise_kron(out, expected_block(m, X))
+            out = rowwise_kron(out, expected_block(m, X, Xtr))
         if t.by is not None:
             out = out * X[:, t.by][:, None]
         return out
     if isinstance(t, FactorTerm):
-        lo = t.edge_knots_[0] + 0.5
-        L = int(t.n_splines)
+        lo = float(Xtr[:, t.feature].min())           # consecutive integer codes lo .. lo+L-1 of the data of the last compile
+        L = len(np.unique(Xtr[:, t.feature]))
         out = np.array([[1.0 if x == lo + j else 0.0 for j in range(L)] for x in X[:, t.feature]])
         return out[:, 1:] if t.coding == 'dummy' else out
     if isinstance(t, LinearTerm):
@@ -145,7 +145,7 @@ def probe_termlist(res, tl, specs, Xtr, X):
         if len(idx) != int(t.n_coefs) or not np.array_equal(full[:, idx], own) or not np.array_equal(own, own2):
             viol('coefficient indices of term %d do not address its own columns' % i,
                  dict(indices=list(map(int, idx)), n_coefs=int(t.n_coefs)), 'full[:, idx] == term.build_columns(X)')
-        want = expected_block(t, X)
+        want = expected_block(t, X, Xtr)
         if want.shape != own.shape or np.max(np.abs(want - own) - 1e-12 * np.maximum(1.0, np.abs(want)), initial=-1.0) > 0:
             viol('columns of term %d (%s) differ from their documented content' % (i, type(t).__name__),
                  own.tolist(), want.tolist())
@@ -187,6 +187,84 @@ def spline_compile_cases(res, tl, specs, user, X0, Xtr):
         meta.append(dict(inp, kind='SplineTerm.compile'))
         res.case(('spline-compile', repr(hist), u, cat), nontrivial=True)
         res.count('spline compile: ' + ('user knots' if u is not None else 'default knots') + (' after earlier compile' if X0 is not None else ''))
+    from pygam.terms import FactorTerm
+    for t in tl._terms:
+        for m in (t._terms if t.istensor else [t]):
+            if isinstance(m, FactorTerm):
+                col = Xtr[:, int(m.feature)]
+                cases.append('(CFactorCompile %s %s (%s,%s) %d)' % (coq_list([dylit(v) for v in col]), coq_bool(m.coding == 'dummy'),
+                                                                  dylit(m.edge_knots_[0]), dylit(m.edge_knots_[1]), int(m.n_splines)))
+                meta.append(dict(kind='FactorTerm.compile', column=col.tolist(), dummy=m.coding == 'dummy', specs=specs,
+                                 X_earlier=None if X0 is None else X0.tolist(), X_train=Xtr.tolist()))
+                res.case(('factor-compile-in-list', repr(col.tolist()), m.coding), nontrivial=True)
+    return cases, meta
+
+
+def gam_modelmat_cases(res, rng, tier):
+    """GAM._modelmat (the observation point of the property on a fitted model): the matrix is a function of the X it is given --
+    the same array object is queried again after in-place edits of interior rows (first and last row untouched)"""
+    from pygam import LinearGAM
+    count = 24 if tier == 'quick' else 200
+    cases, meta = [], []
+    tries = 0
+    while len(meta) < 2 * count and tries < 4 * count:
+        tries += 1
+        nf = rng.randint(2, 4)
+        factor_feats = tuple(j for j in range(nf) if rng.random() < 0.25)
+        specs = gen_terms.gen_termlist(rng, nf, factor_feats, dyadic=True, max_terms=3, max_n=8, intercept=False, allow_cat=False)
+        Xtr = gen_terms.gen_X(rng, 40, nf, factor_feats)
+        for j in factor_feats:
+            Xtr[:, j] += rng.choice([0, 1, 3, -2])
+        y = np.array([rng.gauss(0, 1) for _ in range(len(Xtr))])
+        try:
+            with warnings.catch_warnings():
+                warnings.simplefilter('ignore')
+                gam = LinearGAM(terms=gen_terms.build_termlist(specs)).fit(Xtr, y)
+                tl = gam.terms
+                if tl.n_coefs > 300:
+                    continue
+        except Exception as e:
+            res.count('gam fit failed (%s): case not used' % type(e).__name__)
+            continue
+        sl = [s_ for t in tl._terms for s_ in spline_like(t)]
+        X = gen_pred_X(rng, Xtr, factor_feats, rng.randint(4, 7))
+        Xnew = gen_pred_X(rng, Xtr, factor_feats, len(X))
+        if any(c03.alternatives(A[r, f], ek, n, k, per) for A in (X, Xnew) for r in range(len(A)) for (f, ek, n, k, per) in sl):
+            res.count('gam case skipped (rounding-adjacent row)')
+            continue
+        inp = dict(specs=specs, X_train=Xtr.tolist(), X_first=X.tolist())
+        try:
+            with warnings.catch_warnings():
+                warnings.simplefilter('ignore')
+                Xb = X.copy()
+                M1 = dense(gam._modelmat(X))
+                X[1:-1, :] = Xnew[1:-1, :]                  # in place, same object, first and last row unchanged
+                M2 = dense(gam._modelmat(X))
+                ti = rng.randrange(len(tl._terms))
+                M3 = dense(gam._modelmat(X, term=ti))
+                want1 = np.hstack([expected_block(t, Xb, Xtr) for t in tl._terms])
+                want2 = np.hstack([expected_block(t, X, Xtr) for t in tl._terms])
+                want3 = expected_block(tl._terms[ti], X, Xtr)
+        except Exception as e:
+            res.violations.append(dict(what='GAM._modelmat raised on valid prediction-time data', finding=None, input=inp,
+                                       observed='%s: %s' % (type(e).__name__, e), expected='model matrix'))
+            continue
+        inp['X_second_same_object_edited_in_place'] = X.tolist()
+        for tag, got, want in (('first query', M1, want1),
+                               ('second query of the same array object after in-place edits of interior rows', M2, want2),
+                               ('single-term query after the edits (term %d)' % ti, M3, want3)):
+            if got.shape != want.shape or np.max(np.abs(want - got) - 1e-12 * np.maximum(1.0, np.abs(want)), initial=-1.0) > 0:
+                res.violations.append(dict(what='GAM._modelmat(X) is not the documented model matrix of the X it was given: ' + tag,
+                                           finding=None, input=inp, observed=got.tolist(), expected=want.tolist()))
+        idx = [tl.get_coef_indices(i) for i in range(len(tl._terms))]
+        idxs = coq_list(['(%d, %d)' % ((int(ix[0]) if len(ix) else 0), len(ix)) for ix in idx])
+        for A, M in ((Xb, M1), (X, M2)):
+            rows = coq_list(['(%s, Some %s)' % (coq_list([dylit(v) for v in A[r]]), coq_list([dylit(v) for v in M[r]]))
+                             for r in range(len(A))])
+            cases.append('(CCols %s %s%%Q %s %s %d)' % (coq_list([term_coq(t) for t in tl._terms]), qlit(TOL), rows, idxs, int(tl.n_coefs)))
+            meta.append(dict(inp, kind='GAM._modelmat'))
+        res.case(('gam-modelmat', repr(specs), repr(X.tolist())), nontrivial=True)
+        res.count('GAM._modelmat: same array queried again after in-place edits')
     return cases, meta
 
 
@@ -214,6 +292,24 @@ def make_cases(res, rng, tier):
                 if m['kind'] == 's' and m['feature'] in user:
                     m['edge_knots'] = list(user[m['feature']])
         X0 = gen_terms.gen_X(rng, rng.randint(4, 12), nf, factor_feats) if rng.random() < 0.4 else None
+        for j in factor_feats:                              # consecutive integer codes that do not start at 0
+            o = rng.choice([0, 0, 1, 3, 7, -2, -5])
+            Xtr[:, j] += o
+            if X0 is not None:
+                X0[:, j] += rng.choice([o, o, 0, 2])
+            if o:
+                res.count('factor codes starting at %d' % o)
+        for sp in specs:                                    # by-variable = 0/1 indicator that is 0 on the rows holding the extremes
+            if sp.get('by') is not None and sp['by'] not in factor_feats and rng.random() < 0.6:
+                feats = [sp['feature']] if sp['kind'] == 's' else [m['feature'] for m in sp.get('margins', [])]
+                for A in ([Xtr] if X0 is None else [Xtr, X0]):
+                    b = np.array([float(rng.random() < 0.6) for _ in range(len(A))])
+                    for fj in feats:
+                        b[(A[:, fj] == A[:, fj].min()) | (A[:, fj] == A[:, fj].max())] = 0.0
+                    if rng.random() < 0.15:
+                        b[:] = 0.0
+                    A[:, sp['by']] = b
+                res.count('by-variable is a 0/1 indicator with zeros on the extremes')
         try:
             with warnings.catch_warnings():
                 warnings.simplefilter('ignore')
@@ -315,6 +411,8 @@ def run(res):
                 'Rows within 1e-12 of a jump of an order-0 / periodic basis are not compared (counted).')
     common.standard_prove(res, PROPS_FILE)
     cases, meta = make_cases(res, rng, res.tier)
+    gc, gm = gam_modelmat_cases(res, rng, res.tier)
+    cases, meta = cases + gc, meta + gm
     with common.CaseDir(PROP) as cd:
         failing, errors = common.run_bool_cases(cd, HEADER, cases, 'check_case', shard=max(1, len(cases) // (common.NPROC * 2)))
     for name, out in errors:
